@@ -1,6 +1,7 @@
 package b2fx
 
 import (
+	"bytes"
 	"encoding/json"
 	"fmt"
 
@@ -19,6 +20,8 @@ import (
 type SessionJailArg struct {
 	HeaderMID []byte `json:"header_mid"`
 	LibMaster bool   `json:"lib_master"`
+	// Extra header lines of the delivered message (hostile header content other than Mid).
+	Extra [][2]string `json:"extra,omitempty"`
 }
 
 func init() {
@@ -28,7 +31,7 @@ func init() {
 			return "skipped: bad arg: " + err.Error()
 		}
 		w := BaseWorld("c12-session", arg.LibMaster)
-		spec := MsgSpec{MID: string(arg.HeaderMID), From: w.PeerCall, To: []string{w.LibCall}, Subject: "hostile identifier", Body: []byte("confinement probe\r\n")}
+		spec := MsgSpec{MID: string(arg.HeaderMID), From: w.PeerCall, To: []string{w.LibCall}, Subject: "hostile identifier", Body: []byte("confinement probe\r\n"), Extra: arg.Extra}
 		data := spec.Wire()
 		w.Plan.Outbound = []b2fref.OutMsg{{MID: string(op.MID), Type: "EM", Title: "hostile identifier", Data: data}}
 		h := mailbox.NewDirHandler(mbox, false)
@@ -51,4 +54,26 @@ func init() {
 	})
 }
 
-var _ = fbb.Accept
+// "inbound-hdr": a message with a harmless Mid (op.MID) and hostile content in other headers is
+// parsed by the library (as a session does) and handed to ProcessInbound of the real mailbox.
+func init() {
+	mboxkit.RegisterJailOp("inbound-hdr", func(mbox string, op mboxkit.Op) string {
+		var arg SessionJailArg
+		if err := json.Unmarshal(op.Arg, &arg); err != nil {
+			return "skipped: bad arg: " + err.Error()
+		}
+		spec := MsgSpec{MID: string(op.MID), From: "N0PEER", To: []string{"N0LIB"}, Subject: "hostile header", Body: []byte("confinement probe\r\n"), Extra: arg.Extra}
+		m := new(fbb.Message)
+		if err := m.ReadFrom(bytes.NewReader(spec.Wire())); err != nil {
+			return "skipped: the library's message parser refused the bytes"
+		}
+		h := mailbox.NewDirHandler(mbox, false)
+		if err := h.Prepare(); err != nil {
+			return "error: prepare: " + err.Error()
+		}
+		if err := h.ProcessInbound(m); err != nil {
+			return "error: " + err.Error()
+		}
+		return "nil"
+	})
+}
